@@ -128,7 +128,7 @@ def gen_cred(rng, v, is_proxy, p_proper=0.55):
         return [[name, val]], {"kind": "proper", "u": u, "p": p}
     if r < p_proper + 0.10:
         u, p = rng.choice(USERS), rng.choice(PASSES)
-        if ref_accepts(v, u, p) and v[0] != "any":
+        while ref_accepts(v, u, p) and v[0] != "any":
             p = p + "x"
         val = "Basic " + _b64(u, p)
         return [[name, val]], {"kind": "wrongpair" if v[0] != "any" else "proper", "u": u, "p": p}
@@ -589,7 +589,7 @@ def coq_case(case, obs):
                 os_.append(f"ASocks {cbool(o['valid'])} {cbool(o['authd'])}")
             else:
                 ip = MODES[case["conns"][ev["c"]]][1]
-                evs.append(f"EReq {cN(ev['c'])} {cbool(ip)} {cbool(ev['connect'])} {cbool(ev['replay'])} {chdrs(ev['hdrs'])}")
+                evs.append(f"EReq {cN(ev['c'])} {cbool(ip)} {cbool(ev['connect'])} {cbool(ev['replay'])} false {chdrs(ev['hdrs'])}")
                 os_.append(f"AHttp {copt(o['resp'], cN, 'N')} {chdrs(o['hdrs'])} {cm(o['meta'])} {cbool(o['authd'])}")
         return f"Addon {cbool(obs['ms1'])} {cvspec(case['v'])} {clist(evs, 'event')} {clist(os_, 'aobs')}"
     steps = []
